@@ -12,7 +12,7 @@ use refimpl as r;
 use refimpl::{Mode, MODES};
 use serde_json::json;
 
-const RULE: &str = "for honest keys and signed (M, ctx, mode): (1) every other split i != |ctx|, i <= 255, of the concatenation ctx||M into (ctx', M') must be rejected in the same mode; (1b) every single-byte change of the context (all positions), the context truncated/extended by one byte, message bytes changed/extended/truncated must be rejected; (1c) context and message made of bytes that imitate a length byte at every position (ctx[j] = j, M[i] = |ctx|+1+i): moving the real length byte to any other position of ctx||len||M must be rejected; (2) cross-mode mimicry, including every split of ctx||OID||PH(M) under pure verify and pure signatures over splits shifted by up to two bytes under hash_verify: the pure signature of OID||PH(M) (also with domain and length bytes prepended) must be rejected by hash_verify(M, PH), and a pre-hash signature must be rejected by pure verify of OID||PH(M) and of the literal formatted bytes; (4) for messages just past 4 KiB .. 1 MiB: a changed byte at the start, middle, end and on both sides of every power-of-two offset, truncation to every power of two, by one byte, and extensions must be rejected; (5) on 64-bit hosts a pure signature over 0^15 must not verify for 0^(2^32+15) (thorough: and vice versa); (3) every other pre-hash function (incl. SHA-256 vs SHAKE128 which share the digest length) and the other mode must reject; the original must verify. The reference is run on every alternative as well (it must also say false). Non-trivial = distinct alternative interpretations evaluated against a signature that verifies under its own interpretation.";
+const RULE: &str = "for honest keys and signed (M, ctx, mode): (1) every other split i != |ctx|, i <= 255, of the concatenation ctx||M into (ctx', M') must be rejected in the same mode; (1b) every single-byte change of the context (all positions), the context truncated/extended by one byte, message bytes changed/extended/truncated must be rejected; (1c) context and message made of bytes that imitate a length byte at every position (ctx[j] = j, M[i] = |ctx|+1+i): moving the real length byte to any other position of ctx||len||M must be rejected; (2) cross-mode mimicry, including every split of ctx||OID||PH(M) under pure verify and pure signatures over splits shifted by up to two bytes under hash_verify: the pure signature of OID||PH(M) (also with domain and length bytes prepended) must be rejected by hash_verify(M, PH), and a pre-hash signature must be rejected by pure verify of OID||PH(M) and of the literal formatted bytes; (2b) a pre-hash signature must be rejected by pure verify of every split (at and next to the component boundaries) of OID||ctx||PH(M), OID||ctx||M, ctx||OID||M, ctx||M||OID, ctx||PH(M)||OID, and by hash_verify with the OID (or OID||ctx) in the role of the context under every PH; (2c) pure signatures whose context is OID||ctx or ctx||OID over M or PH(M) must be rejected by hash_verify(M, ctx, PH) — the empty context, 3, 11 and 255 bytes are covered deterministically; (4) for messages just past 4 KiB .. 1 MiB: a changed byte at the start, middle, end and on both sides of every power-of-two offset, truncation to every power of two, by one byte, and extensions must be rejected; (5) on 64-bit hosts a pure signature over 0^15 must not verify for 0^(2^32+15) (thorough: and vice versa); (3) every other pre-hash function (incl. SHA-256 vs SHAKE128 which share the digest length) and the other mode must reject; the original must verify. The reference is run on every alternative as well (it must also say false). Non-trivial = distinct alternative interpretations evaluated against a signature that verifies under its own interpretation.";
 
 pub fn run(ctx: &Ctx) -> StageOut {
     let mut acc = Acc::new();
@@ -40,7 +40,7 @@ fn alt<S: PS>(acc: &mut Acc, pk: &S::Pk, pk_b: &[u8], class: &str, m: &[u8], cx:
         Ok(true) => {
             let refv = r::verify(p, pk_b, m, sig, cx, mode);
             if refv {
-                acc.violation(&format!("C06|alt-accepted-by-reference-too|{}|{class}", p.name), "alternative interpretation verifies under the crate AND the reference: formatted encodings collide (SHAKE collision candidate or harness error)".into(), replay());
+                acc.violation(&format!("C06|alt-accepted-by-reference-too|{}|{class}", p.name), "alternative interpretation verifies under the crate AND the reference: the signature was made over the formatted message of another interpretation (signer fault), or formatted encodings collide".into(), replay());
             } else {
                 acc.violation(&format!("C06|alt-accepted|{}|{class}|{}", p.name, mode.name()), format!("signature accepted under a different interpretation ({class}, {})", mode.name()), replay());
             }
@@ -265,7 +265,9 @@ fn run_set<S: PS>(ctx: &Ctx) -> Acc {
         }
         // ---- (2) cross-mode mimicry ----------------------------------------------------------
         for ph in [Mode::Sha256, Mode::Sha512, Mode::Shake128] {
-            let cl = *g.pick(&[0usize, 3, 255]);
+            // deterministic coverage of the empty context (the OID is then the only thing between the header and
+            // the digest), a short one, and the limit
+            let cl = [0usize, 3, 255, 11][(ji + ph as usize) % 4];
             let cx = gen::context(&mut g, cl);
             let m = gen::message(&mut g, 50);
             let mut mimic = r::oid(ph);
@@ -311,6 +313,69 @@ fn run_set<S: PS>(ctx: &Ctx) -> Acc {
                 // digest passed as the message to the same PH (double hashing) and to pure
                 alt::<S>(&mut acc, &pk, &pk_b, "hash-sig-digest-as-message", &r::prehash(ph, &m), &cx, ph, &sig, false);
                 alt::<S>(&mut acc, &pk, &pk_b, "hash-sig-digest-as-pure-message", &r::prehash(ph, &m), &cx, Mode::Pure, &sig, false);
+                // (2b) the components of M' in any other order / role: every split of every ordering of
+                // {ctx, OID} followed by the raw message or the digest, under pure verify (arguments of the
+                // same type swapped between the front end and the internal function: ctx <-> OID, M <-> PH(M))
+                let oid = r::oid(ph);
+                let dg = r::prehash(ph, &m);
+                for (name, parts) in [
+                    ("oid-ctx-digest", vec![&oid[..], &cx[..], &dg[..]]),
+                    ("oid-ctx-msg", vec![&oid[..], &cx[..], &m[..]]),
+                    ("ctx-oid-msg", vec![&cx[..], &oid[..], &m[..]]),
+                    ("ctx-msg-oid", vec![&cx[..], &m[..], &oid[..]]),
+                    ("ctx-digest-oid", vec![&cx[..], &dg[..], &oid[..]]),
+                ] {
+                    let pcat: Vec<u8> = parts.concat();
+                    // splits at the component boundaries and one byte on either side of them
+                    let mut cuts = vec![0usize];
+                    let mut off = 0usize;
+                    for part in &parts {
+                        off += part.len();
+                        for d in [off.saturating_sub(1), off, off + 1] {
+                            if d <= pcat.len() && d <= 255 {
+                                cuts.push(d);
+                            }
+                        }
+                    }
+                    cuts.sort_unstable();
+                    cuts.dedup();
+                    for i in cuts {
+                        alt::<S>(&mut acc, &pk, &pk_b, &format!("hash-sig-as-pure-permuted-{name}"), &pcat[i..], &pcat[..i], Mode::Pure, &sig, false);
+                    }
+                }
+                // the OID in the role of the context under hash_verify (with every PH), the context in the
+                // role of the message prefix
+                for ph2 in [Mode::Sha256, Mode::Sha512, Mode::Shake128] {
+                    // (gen::context may itself produce an OID as the context: then this IS the signed interpretation)
+                    if !(ph2 == ph && oid == cx) {
+                        alt::<S>(&mut acc, &pk, &pk_b, "hash-sig-oid-as-ctx", &m, &oid, ph2, &sig, false);
+                    }
+                    let mut oc = oid.clone();
+                    oc.extend_from_slice(&cx);
+                    if oc.len() <= 255 && !cx.is_empty() {
+                        alt::<S>(&mut acc, &pk, &pk_b, "hash-sig-oid-ctx-as-ctx", &m, &oc, ph2, &sig, false);
+                    }
+                }
+            }
+            // (2c) the reverse direction: pure signatures whose context is the OID (followed / preceded by the
+            // context) over the raw message or the digest must not be pre-hash signatures of (M, ctx)
+            {
+                let oid = r::oid(ph);
+                let dg = r::prehash(ph, &m);
+                let mut oc = oid.clone();
+                oc.extend_from_slice(&cx);
+                let mut co = cx.clone();
+                co.extend_from_slice(&oid);
+                for (name, c2) in [("oid-ctx", &oc), ("ctx-oid", &co)] {
+                    if c2.len() > 255 {
+                        continue;
+                    }
+                    for (mname, m2) in [("msg", &m), ("digest", &dg)] {
+                        if let Ok((Ok(sig), _)) = sign_replay::<S>(&sk, m2, c2, Mode::Pure, &rnd) {
+                            alt::<S>(&mut acc, &pk, &pk_b, &format!("pure-sig-with-{name}-context-over-{mname}-as-hash"), &m, &cx, ph, &sig, false);
+                        }
+                    }
+                }
             }
         }
         let _ = hex(&xi);
